@@ -16,7 +16,7 @@ CONSTANTS
   Kinds = {"CallFunction", "CallFunction2", "CallFunctionReply", "AbortFunctionCall", "DestroyService", "DestroyObject"}
   Faults = {"ends", "dropped"}
   WrongKinds = {}
-  MsgBudget = 4
+  MsgBudget = 3
   ScriptSel = "svc"
   V0 = 20
   V1 = 20
